@@ -33,12 +33,12 @@ Definition p_atoms (p : pdb) : list atom := flat_map m_atoms p.
 Definition fval_of_sx (x : sx) : fval :=
   match x with
   | SL [SZ m; SZ e] => FFin m e
-  | SY "-0" => FNegZero | SY "inf" => FInf | SY "-inf" => FNegInf | _ => FNaN
+  | SY "nz" => FNegZero | SY "inf" => FInf | SY "-inf" => FNegInf | _ => FNaN
   end%string.
 Definition sx_of_fval (f : fval) : sx :=
   match f with
   | FFin m e => SL [SZ m; SZ e]
-  | FNegZero => SY "-0" | FInf => SY "inf" | FNegInf => SY "-inf" | FNaN => SY "nan"
+  | FNegZero => SY "nz" | FInf => SY "inf" | FNegInf => SY "-inf" | FNaN => SY "nan"
   end%string.
 
 Definition zero_f := FFin 0 0.
